@@ -60,6 +60,9 @@ func runC16(r *Run) {
 	c16SlowReader(r)
 	// the server side demultiplexed per client: clients come and go with calls in flight (c18c.go)
 	c18CancelWithUnaryInFlight(r)
+	// calls of the library's client relayed to the library's server over pipes and over the library's
+	// channel transport: statuses arrive, a stream the server resets is not a completed one (c03b.go)
+	c03ViaProxy(r)
 	// dial on demand AGAIN after the dialled connection has failed: the envelope the proxy then accepts
 	// for the name reaches the newly dialled connection
 	if r.Want("redial") {
